@@ -1,6 +1,131 @@
-import RucteModel
+import RucteModel.Statics
+import RucteProofs.BTree
 
-/-! # C09 — placeholder: theorems are added as they are proved. -/
+/-!
+# C09 — STATICS is complete and sorted; lookup by name is exact
+
+`btInsert` = `BTreeMap<String,String>::insert` on a strictly sorted association list
+(byte-lexicographic keys, `bytesLt`), `staticsLine` = what `Drop for StaticFiles` prints,
+`binarySearch` = the halving search of `binary_search_by_key` on the sorted `STATICS` array.
+-/
 namespace Ructe.C09
-theorem placeholder : True := trivial
+open Nom
+
+/-- the URL names (keys of `names_r`) in the order `STATICS` lists them -/
+def staticsOrder (namesR : List (Bytes × Bytes)) : List Bytes := namesR.map (·.1)
+
+/-- after any sequence of inserts into the empty map the list is strictly sorted by key -/
+theorem btree_insert_sorted (ops : List (Bytes × Bytes)) :
+    StrictSorted ((ops.foldl (fun m kv => btInsert kv.1 kv.2 m) []).map (·.1)) := by
+  exact foldl_btInsert_sorted ops [] trivial
+
+/-- … and its key set is exactly the set of keys inserted (independent of the order) -/
+theorem btree_keys (ops : List (Bytes × Bytes)) (k : Bytes) :
+    k ∈ (ops.foldl (fun m kv => btInsert kv.1 kv.2 m) []).map (·.1) ↔ k ∈ ops.map (·.1) := by
+  rw [mem_keys_foldl_btInsert]
+  simp
+
+/-- the final map does not depend on the insertion order when keys are pairwise distinct -/
+theorem btree_perm (ops₁ ops₂ : List (Bytes × Bytes)) (hp : ops₁.Perm ops₂) (hd : (ops₁.map (·.1)).Nodup) :
+    ops₁.foldl (fun m kv => btInsert kv.1 kv.2 m) [] = ops₂.foldl (fun m kv => btInsert kv.1 kv.2 m) [] := by
+  exact foldl_btInsert_perm hp hd []
+
+/-- the `STATICS` line lists the identifiers of `names_r` in key order: `&a, &b, …` -/
+theorem staticsLine_lists (namesR : List (Bytes × Bytes)) :
+    staticsLine namesR = str "\npub static STATICS: &[&StaticFile] = &[" ++
+      (match namesR with
+       | [] => []
+       | p :: r => str "&" ++ p.2 ++ r.flatMap (fun q => str ", &" ++ q.2)) ++ str "];\n" := by
+  cases namesR with
+  | nil => rfl
+  | cons p r => cases p; rfl
+
+/-- invariant of the halving loop: a hit is in range and carries the key -/
+theorem go_sound (arr : Array Bytes) (key : Bytes) (fuel lo hi i : Nat) (hhi : hi ≤ arr.size)
+    (h : binarySearch.go arr key fuel lo hi = some i) : i < arr.size ∧ arr[i]! = key := by
+  induction fuel generalizing lo hi with
+  | zero => simp [binarySearch.go] at h
+  | succ n ih =>
+    simp only [binarySearch.go] at h
+    split at h
+    · next hlt =>
+      split at h
+      · next e =>
+        cases h
+        exact ⟨by omega, e⟩
+      · split at h
+        · exact ih _ _ hhi h
+        · exact ih _ _ (by omega) h
+    · cases h
+
+/-- `get`: on a strictly sorted array the halving search finds exactly the entry with that name … -/
+theorem get_sound (arr : Array Bytes) (key : Bytes) (i : Nat) (h : binarySearch arr key = some i) :
+    i < arr.size ∧ arr[i]! = key :=
+  go_sound arr key _ _ _ i (Nat.le_refl _) h
+
+/-- invariant of the halving loop: with the key inside the window and enough fuel, it is found -/
+theorem go_complete (arr : Array Bytes) (hs : StrictSorted arr.toList) (key : Bytes) (j : Nat) (hj : j < arr.size)
+    (hkey : arr[j] = key) (fuel lo hi : Nat) (hlo : lo ≤ j) (hjh : j < hi) (hhi : hi ≤ arr.size) (hf : hi - lo < fuel) :
+    ∃ i, binarySearch.go arr key fuel lo hi = some i := by
+  induction fuel generalizing lo hi with
+  | zero => omega
+  | succ n ih =>
+    simp only [binarySearch.go]
+    have hlt : lo < hi := by omega
+    simp only [hlt, if_true]
+    have hm : (lo + hi) / 2 < arr.size := by omega
+    rw [getElem!_pos arr _ hm]
+    split
+    · exact ⟨_, rfl⟩
+    · next hne =>
+      split
+      · next hb =>
+        -- arr[mid] < key = arr[j], so mid < j
+        refine ih _ _ ?_ hjh hhi (by omega)
+        apply Nat.succ_le_of_lt
+        apply Nat.lt_of_not_le
+        intro hle
+        rcases Nat.lt_or_eq_of_le hle with hl | he
+        · have := hs.getElem_lt hl (by simpa using hm)
+          simp only [Array.getElem_toList] at this
+          rw [hkey] at this
+          rw [bytesLt_asymm this] at hb
+          cases hb
+        · subst he; exact hne hkey
+      · next hb =>
+        refine ih _ _ hlo ?_ (by omega) (by omega)
+        apply Nat.lt_of_not_le
+        intro hle
+        rcases Nat.lt_or_eq_of_le hle with hl | he
+        · have := hs.getElem_lt hl (by simpa using hj)
+          simp only [Array.getElem_toList] at this
+          rw [hkey] at this
+          exact hb this
+        · exact hne (by simp only [he]; exact hkey)
+
+/-- … and finds it whenever it is present: `None` is returned for every other string only -/
+theorem get_complete (arr : Array Bytes) (hs : StrictSorted arr.toList) (key : Bytes) (hk : key ∈ arr.toList) :
+    ∃ i, binarySearch arr key = some i := by
+  obtain ⟨j, hj, e⟩ := List.getElem_of_mem hk
+  have hj' : j < arr.size := by simpa using hj
+  exact go_complete arr hs key j hj' (by simpa using e) _ 0 arr.size (Nat.zero_le _) hj' (Nat.le_refl _) (by omega)
+
+theorem get_exact (arr : Array Bytes) (hs : StrictSorted arr.toList) (key : Bytes) :
+    (binarySearch arr key).isSome = true ↔ key ∈ arr.toList := by
+  constructor
+  · intro h
+    obtain ⟨i, hi⟩ := Option.isSome_iff_exists.mp h
+    obtain ⟨h1, h2⟩ := get_sound arr key i hi
+    rw [getElem!_pos arr i h1] at h2
+    rw [← h2]
+    simp
+  · intro h
+    obtain ⟨i, hi⟩ := get_complete arr hs key h
+    simp [hi]
+
+/-! Non-vacuity -/
+example : StrictSorted [[45], [46], [95], [97]] := by decide
+#guard binarySearch #[[45], [46], [95], [97]] [95] == some 2
+#guard binarySearch #[[45], [46], [95], [97]] [96] == none
+
 end Ructe.C09
